@@ -252,7 +252,7 @@ def monitor(h, lines):
 
 # ----------------------------------------------------------------------------- decision function
 LOCAL = ["none", "accepted", "shutdown", "closed", "closedshutdown"]
-PEER = ["ok", "err", "absent", "nostream"]
+PEER = ["ok", "err", "absent", "nostream", "sibling"]
 
 
 def dv_cases():
@@ -332,6 +332,9 @@ def check(tier, seed):
             # ... and the same with the merge between the two registrations of a re-registering instance
             hs.append(["CL %d 1" % n, "R %d 0" % first, "S m %d" % first, "M %d m" % other, "R %d 0" % other, "S m2 %d" % other, "M %d m2" % first,
                        "D %d %d 0 2" % (first, other), "D %d %d 0 1" % (other, first), "Q"])
+    # an instance that owns many shards (its full state is several hundred bytes): a full-state exchange must still carry all of it
+    for nsh in (6, 8, 12, 24, 40):
+        hs.append(["CL 2 %d" % nsh] + ["R 0 %d" % sh for sh in range(nsh)] + ["S big 0", "M 1 big", "R 1 0", "S b1 1", "M 0 b1", "Q"])
     for _ in range(120 if tier == "quick" else 4000):
         hs.append(random_history(rng, rng.range(2, 4), rng.range(1, 3)))
     err, impl = run_impl(hs, "main")
